@@ -1263,7 +1263,11 @@ async fn run_prepare_case(line: String) -> String {
     while cluster.connections(None).len() < nnodes + 1 && t.elapsed() < Duration::from_secs(10) {
         tokio::time::sleep(Duration::from_millis(2)).await;
     }
-    let res = session.prepare(text.as_str()).await;
+    // prepare_on_all has no timeout of its own
+    let res = match tokio::time::timeout(Duration::from_secs(20), session.prepare(text.as_str())).await {
+        Ok(r) => r,
+        Err(_) => return "error session prepare-timeout".into(),
+    };
     let out = match &res {
         Ok(p) => {
             let g = p.get_current_result_set_col_specs();
